@@ -4,8 +4,9 @@
    A "cell" is either a Condition with a boolean test (stream.py:639-762; callable
    tests are not modelled) or the Condition owned by a FlowVar, whose test is
    "the value is bound" (stream.py:764-822).  Waiting routines are routine indices.
-   Scheduling is abstracted as in NRT mode: tt._clock.sched(0, tt) appends a wake-up
-   (time, routine) to one time-ordered stable queue (clock.py:257-272, 518-547;
+   Scheduling is abstracted as in NRT mode: tt._clock.sched(0, tt) puts a wake-up
+   (time, routine) into one time-ordered stable queue that holds at most one pending
+   wake-up per routine (clock.py SystemClock.sched, ClockScheduler, ClockTask;
    _taskq.py orders by (time, insertion count)). *)
 From Coq Require Import ZArith List Bool.
 Import ListNotations.
@@ -80,12 +81,22 @@ Definition cell_value (c : cell) : val :=
   | _ => VUnbound
   end.
 
-(* --- the NRT scheduler queue: stable, time ordered ---------------------- *)
-Fixpoint enqueue (t : Z) (r : nat) (q : list (Z * nat)) : list (Z * nat) :=
+(* --- the NRT scheduler queue: stable, time ordered, ONE pending wake-up per routine ----
+   clock.py ClockScheduler.add (since "non-real-time scheduler keeps one pending wake-up per
+   task and clock"): scheduling a routine that is still queued removes its previous entry; the
+   new entry goes behind every entry with a time <= its own (_taskq.py: (time, insertion count)).
+   One clock (SystemClock) is modelled, so the key (clock, task) is the routine. *)
+Definition qremove (r : nat) (q : list (Z * nat)) : list (Z * nat) :=
+  filter (fun p => negb (Nat.eqb (snd p) r)) q.
+
+Fixpoint qinsert (t : Z) (r : nat) (q : list (Z * nat)) : list (Z * nat) :=
   match q with
   | [] => [(t, r)]
-  | (t', r') :: rest => if t' <=? t then (t', r') :: enqueue t r rest else (t, r) :: q
+  | (t', r') :: rest => if t' <=? t then (t', r') :: qinsert t r rest else (t, r) :: q
   end.
+
+Definition enqueue (t : Z) (r : nat) (q : list (Z * nat)) : list (Z * nat) :=
+  qinsert t r (qremove r q).
 
 Fixpoint enqueue_all (t : Z) (rs : list nat) (q : list (Z * nat)) : list (Z * nat) :=
   match rs with
